@@ -706,7 +706,24 @@ def run_c02(inst, seed, tid):
             ref = celer.GroupLasso(groups=sizes, alpha=al, fit_intercept=fi, tol=1e-12, max_iter=500,
                                    max_epochs=100000).fit(X, y)
             wref = _est_w(ref, fi)
-            if s == "GroupLasso":
+            if s == "GroupLasso" and st == "csc":
+                # (GroupLasso takes no sparse input: the storage flag selects the third documented `groups` format
+                #  instead -- lists of indices, on a column-permuted copy, so that they are interleaved and unordered)
+                perm = rng.permutation(p)
+                inv = np.argsort(perm)
+                lists = []
+                for g in range(4):
+                    pos = [int(inv[j]) for j in idx[ptr[g]:ptr[g + 1]]]
+                    lists.append([pos[i] for i in rng.permutation(len(pos))])
+                e = skglm.GroupLasso(groups=lists, alpha=al, fit_intercept=fi, tol=TOL)
+                with warnings.catch_warnings():
+                    warnings.simplefilter("ignore")
+                    e.fit(np.asfortranarray(X[:, perm]), y)
+                w2 = _est_w(e, fi)
+                w = w2.copy()
+                w[:p] = w2[:p][inv]
+                rep = e.stop_crit_ <= 10 * TOL
+            elif s == "GroupLasso":
                 e = skglm.GroupLasso(groups=sizes, alpha=al, fit_intercept=fi, tol=TOL)
                 with warnings.catch_warnings():
                     warnings.simplefilter("ignore")
